@@ -142,7 +142,9 @@ func (p *Prog) applyInlining() {
 	}
 	p.inlinedAway = map[*types.Func]bool{}
 	for fn := range st.isNew {
-		if !left[fn] {
+		// (a new function that no call was read in place for – a method reached only through an interface, a function
+		// only used as a value – is analysed on its own like any other)
+		if !left[fn] && p.inlinedN[fn] > 0 {
 			p.inlinedAway[fn] = true
 		}
 	}
@@ -329,6 +331,7 @@ func (st *inlineState) tailBody(pk *packagesPkg, call *ast.CallExpr, h *FuncInfo
 	st.funcBody(pk, body, append(append([]*types.Func{}, stack...), h.Obj))
 	st.notes = append(st.notes, "new helper "+h.Name()+" in return position at "+st.p.Pos(call.Pos())+" read in place")
 	st.p.noteInlinedCall(call)
+	st.p.noteInlinedHelper(h.Obj)
 	return append(pre, body.List...)
 }
 
@@ -913,6 +916,7 @@ func (st *inlineState) instantiate(pk *packagesPkg, call *ast.CallExpr, h *FuncI
 			pre = append(pre, body.List[:len(body.List)-1]...)
 			st.notes = append(st.notes, "new helper "+h.Name()+" inlined at "+st.p.Pos(call.Pos()))
 	st.p.noteInlinedCall(call)
+	st.p.noteInlinedHelper(h.Obj)
 			return pre, ret.Results, true
 		}
 	}
@@ -992,6 +996,7 @@ func (st *inlineState) instantiate(pk *packagesPkg, call *ast.CallExpr, h *FuncI
 	pre = append(pre, moved...)
 	st.notes = append(st.notes, "new helper "+h.Name()+" inlined at "+st.p.Pos(call.Pos()))
 	st.p.noteInlinedCall(call)
+	st.p.noteInlinedHelper(h.Obj)
 	if direct {
 		return pre, nil, true
 	}
@@ -1092,6 +1097,7 @@ func (st *inlineState) asLiteralCall(pk *packagesPkg, call *ast.CallExpr, h *Fun
 	st.funcBody(pk, body, append(append([]*types.Func{}, stack...), h.Obj))
 	st.notes = append(st.notes, "new helper "+h.Name()+" started with go/defer at "+st.p.Pos(call.Pos())+" read as a function literal")
 	st.p.noteInlinedCall(call)
+	st.p.noteInlinedHelper(h.Obj)
 	return &ast.CallExpr{Fun: lit, Lparen: pos, Rparen: pos}
 }
 
@@ -1760,4 +1766,11 @@ func (p *Prog) noteInlinedCall(call *ast.CallExpr) {
 	for l := ps.Line; l <= pe.Line; l++ {
 		p.inlinedAt[ps.Filename+":"+itoa(l)] = true
 	}
+}
+
+func (p *Prog) noteInlinedHelper(fn *types.Func) {
+	if p.inlinedN == nil {
+		p.inlinedN = map[*types.Func]int{}
+	}
+	p.inlinedN[fn]++
 }
